@@ -5,8 +5,8 @@ package main
 //
 //   int      decimal                      optint   - | decimal
 //   bytes    n (nil) | x<hex> (x = empty, non-nil) | k<ord> (atom: the public key bytes of key <ord>)
-//   str      s<cp.cp...> (s = "") | h<ord> (atom: an opaque non-empty ASCII string: hash, key hex)
-//            | g<ord> (atom: a real signature string "r|s" as keys.EncodeSignature writes it)
+//   str      s<cp.cp...> (s = "") | h<ord> | g<ord> (atoms: abbreviations of strings defined by an earlier
+//            line `C15 A h<ord> s<cp...>`; h: hashes, key hex strings and their spellings, g: signatures)
 //            a code point is printed in decimal; an INVALID UTF-8 byte b is printed as -(b+1)
 //   list<X>  N (nil slice / nil map) | L<k> X*k
 //   peer     str(NetAddr) str(PubKeyHex) str(Moniker)
@@ -49,21 +49,46 @@ func newAtoms() *atoms {
 	return &atoms{str: map[string]int{}, sig: map[string]int{}, bytes: map[string]int{}}
 }
 
+// Atoms are pure compression: when a string is registered, a definition line
+//
+//	C15 A h<n>|g<n> s<code points>
+//
+// is written, and the runner expands the atom to exactly that string (and compresses it again when it
+// prints).  The model therefore sees the real strings (map-key order, DecodeSignature, ...).
+func (a *atoms) define(tok string, s string) {
+	if out != nil {
+		t := &tw{a: &atoms{}}
+		t.str(s)
+		fmt.Fprintf(out, "C15 A %s %s\n", tok, t.String())
+	}
+}
+
 // G registers a real signature string ("r|s" in base 36, as keys.EncodeSignature writes it)
 func (a *atoms) G(s string) string {
+	if s == "" {
+		return s
+	}
+	if _, ok := a.str[s]; ok {
+		return s
+	}
 	if _, ok := a.sig[s]; !ok {
 		a.sig[s] = len(a.sig)
+		a.define(fmt.Sprintf("g%d", a.sig[s]), s)
 	}
 	return s
 }
 
-// S registers an opaque string (hash / signature / key hex) and returns it.
+// S registers a string that is used often (hash / key hex and its spellings) and returns it.
 func (a *atoms) S(s string) string {
 	if s == "" {
 		return s
 	}
+	if _, ok := a.sig[s]; ok {
+		return s
+	}
 	if _, ok := a.str[s]; !ok {
 		a.str[s] = len(a.str)
+		a.define(fmt.Sprintf("h%d", a.str[s]), s)
 	}
 	return s
 }
